@@ -50,7 +50,8 @@ template<class A> static void incomplete_cases(){
 VH_DRIVER(ledger){
   Rng R(g.seed); bool th=g.thorough;
   std::vector<Text> uris; for(const char*s:{"s://u@h:1/a/b?q#f","//[::1]/x/y","//1.2.3.4:80/a","//[vF.X]:9/p/q/r","s:a/b/c","/a/b/../c/./d","a/./b/../../c","S://U%41@H%42:1/%41a/%42b/../c?%43#%44","//h:1/x","s://h/a/b/..","file:///","","?q","../../x","s:/./a//b","//h//","a/..","/.//x","s:.//a","b:c/../d:e","//[VA.b]"}) uris.push_back(T(s));
-  for(int i=0;i<(th?400:40);++i){ Text t; const char*sc[]={"","s:","S+x:"}; const char*au[]={"","//h","//u%41@H:1","//[::1]","//1.2.3.4","//[vA.b]","//"}; t=T(sc[R.below(3)])+T(au[R.below(7)]); int n=R.below(7); for(int j=0;j<n;++j){ t.push_back('/'); const char*sg[]={"a",".","..","%41","","b%2Fc","x:y"}; t=t+T(sg[R.below(7)]); } if(R.below(2)) t=t+T("?q%41"); if(R.below(2)) t=t+T("#f%42"); uris.push_back(t); }
+  long nuri=atol(arg_value(argc,argv,"--uris",th?"400":"40"));
+  for(long i=0;i<nuri;++i){ Text t; const char*sc[]={"","s:","S+x:"}; const char*au[]={"","//h","//u%41@H:1","//[::1]","//1.2.3.4","//[vA.b]","//"}; t=T(sc[R.below(3)])+T(au[R.below(7)]); int n=R.below(7); for(int j=0;j<n;++j){ t.push_back('/'); const char*sg[]={"a",".","..","%41","","b%2Fc","x:y"}; t=t+T(sg[R.below(7)]); } if(R.below(2)) t=t+T("?q%41"); if(R.below(2)) t=t+T("#f%42"); uris.push_back(t); }
   std::vector<Text> bases; for(const char*s:{"s://g/x/y?z","s://1.2.3.4/x/","s://[::2]/a/b/c","s:/x/y","s://u@h:1/a/b?q#f","t://g/","s://h/a/b/c"}) bases.push_back(T(s));
   long k=0;
   for(auto&u:uris) for(int mmk=0;mmk<3;++mmk){ ++k;
